@@ -175,7 +175,26 @@ func checkC14(c *Check) {
 			c.Cond(strings.HasSuffix(flags, ".Flag") && strings.HasSuffix(describe(open.Common().Args[2]), ".Perm"), "1/container-open", key+":requested-mode", p.Pos(open.Pos()), "opened with the item's own flags and permissions", "opened with "+flags+", "+describe(open.Common().Args[2]))
 			checkOpenTarget(c, chkFn)
 		}
-		c.Expect("1/container-open", 9)
+		// files are created with the mode the request names: the init's umask is cleared once and never set to
+		// anything else (it is process-wide: a non-zero value set for a helper stays in force for every later Open)
+		nUm, badUm, umPos := 0, "", ""
+		for _, fn := range p.PkgFuncs("container") {
+			for _, f := range withClosures(fn) {
+				for _, ci := range callInstrs(f) {
+					if n, _ := calleeOf(ci); n == "syscall.Umask" || n == "golang.org/x/sys/unix.Umask" {
+						nUm++
+						if v, isC := constInt(ci.Common().Args[0]); (!isC || v != 0) && badUm == "" {
+							badUm, umPos = describe(ci.Common().Args[0])+" in "+shortName(f), p.Pos(ci.Pos())
+						}
+					}
+				}
+			}
+		}
+		if umPos == "" {
+			umPos = pos
+		}
+		c.Cond(nUm >= 1 && badUm == "", "1/container-open", "container:umask", umPos, "the init's umask is 0 and nothing changes it", "the container init sets its umask to "+badUm+" (or never clears it): Open then creates files and directories with fewer permission bits than the request names")
+		c.Expect("1/container-open", 10)
 	}
 	// Symlink / Delete
 	for _, nm := range []string{"handleSymlink"} {
@@ -230,6 +249,9 @@ func checkC14(c *Check) {
 
 	// ---------- 5: a full-size batch fits the control buffer ----------
 	importObs(c, "C19", "C19.9/control-buffer-size", "5/batch-fits", nil)
+	// an error of one item is reported in a reply the encoder can always produce (no unregistered interface value,
+	// no untransmitted field): C19.10
+	importObs(c, "C19", "C19.10/wire-types", "6/replies-encodable", nil)
 	c.Expect("5/batch-fits", 1)
 }
 
@@ -463,6 +485,44 @@ func checkHostOpen(c *Check) {
 		}
 	}
 	c.Cond(okCleanup, "2/host-open", key+":cleanup", pos, "on error the unconsumed descriptors (from the cursor on) and the files already wrapped are closed", "on an error return the received descriptors are not all released (tail from the cursor + files already wrapped)")
+	// the cleanup is registered before anything can go wrong with a reply that carries descriptors: every return of
+	// the part that handles a non-error reply (the part dominated by "reply.Error == nil") comes after the defer
+	var cleanupDefer *ssa.Defer
+	for _, b := range op.Blocks {
+		for _, in := range b.Instrs {
+			if df, ok := in.(*ssa.Defer); ok {
+				if mc, ok := df.Call.Value.(*ssa.MakeClosure); ok {
+					if cl, ok := mc.Fn.(*ssa.Function); ok && reachesCall(cl, 2, nameIs("syscall.Close")) {
+						cleanupDefer = df
+					}
+				}
+			}
+		}
+	}
+	var region *ssa.BasicBlock
+	for _, b := range op.Blocks {
+		if iff := blockIf(b); iff != nil {
+			if bo, eq, _, ok := eqEdges(iff); ok && isNilConst(bo.Y) && strings.HasSuffix(describe(bo.X), ".Error") && len(b.Succs[eq].Preds) == 1 {
+				region = b.Succs[eq]
+			}
+		}
+	}
+	if cleanupDefer == nil || region == nil {
+		c.Undecided("2/host-open", key+":cleanup-covers-every-exit", pos, "the cleanup defer or the error-reply test was not found")
+	} else {
+		bad := ""
+		for _, b := range op.Blocks {
+			ret, ok := b.Instrs[len(b.Instrs)-1].(*ssa.Return)
+			if !ok || !region.Dominates(b) {
+				continue
+			}
+			if !dominatesInstr(cleanupDefer, ret) && bad == "" {
+				bad = p.Pos(ret.Pos())
+			}
+		}
+		c.Cond(bad == "", "2/host-open", key+":cleanup-covers-every-exit", p.Pos(cleanupDefer.Pos()), "every exit after a non-error reply runs the cleanup",
+			"the return at "+bad+" leaves Open after a reply that may carry descriptors but before the cleanup is registered: the descriptors received with a rejected reply stay open in the host")
+	}
 	// Symlink: length check and 1:1 mapping
 	if sy := p.Func("container", "container.Symlink"); sy != nil {
 		ok := false
@@ -478,7 +538,7 @@ func checkHostOpen(c *Check) {
 		}
 		c.Cond(ok, "2/host-open", "container.(host)Symlink:length-check", p.Pos(sy.Pos()), "reply length is checked against the request", "the reply's length is not checked against the request")
 	}
-	c.Expect("2/host-open", 7)
+	c.Expect("2/host-open", 8)
 }
 
 // checkFreshDecode: both receive loops decode every message into a value
